@@ -281,7 +281,17 @@ def only_raises(fn, names=('NotImplementedError',)):
 
 
 def is_none_test(test):
-    """(`x is None` -> (x, True)), (`x is not None` -> (x, False)), (`not x`/`x` -> None)."""
+    """(`x is None` -> (x, True)), (`x is not None` -> (x, False)), (`not x`/`x` -> None); `not (x is None)` and
+    `None is x` are the same tests."""
+    flip = False
+    while isinstance(test, ast.UnaryOp) and isinstance(test.op, ast.Not) and isinstance(test.operand, (ast.Compare, ast.UnaryOp)):
+        test, flip = test.operand, not flip
+    if isinstance(test, ast.Compare) and len(test.ops) == 1 and isinstance(test.left, ast.Constant) and test.left.value is None \
+            and isinstance(test.ops[0], (ast.Is, ast.IsNot, ast.Eq, ast.NotEq)):
+        test = ast.copy_location(ast.Compare(left=test.comparators[0], ops=test.ops, comparators=[test.left]), test)
+    if flip:
+        r = is_none_test(test)
+        return (r[0], not r[1]) if r is not None else None
     if isinstance(test, ast.Compare) and len(test.ops) == 1 and isinstance(test.comparators[0], ast.Constant) \
             and test.comparators[0].value is None:
         if isinstance(test.ops[0], ast.Is):
